@@ -16,12 +16,17 @@ EXPLANATION = (
     "rounded constant is the correctly rounded p-bit value of C for floor/down/ceiling/up and for nearest unless the 20 guard "
     "bits are exactly the tie pattern 100..0 (probability 2^-20; cannot be resolved from a truncated value).  Whether pi_fixed, "
     "ln2_fixed, e_fixed ... meet the floor contract is real analysis of their series (Chudnovsky, Machin, Taylor, AGM) and is NOT "
-    "covered: an accuracy defect inside a series routine is outside this check."
+    "covered: an accuracy defect inside a series routine is outside this check.  Context level (const_ctx): the constant objects "
+    "mp.pi, mp.e, ... (class _constant of the current tree, on a fresh clone) are asked twice in sequence -- explicit call "
+    "k(prec=p, rounding=r) or implicit use through the _mpf_ property at context precision p and rounding r -- with symbolic "
+    "precisions p1, p2 in 1..2^20 and every pair of rounding modes; the libmp constant function behind the object is an "
+    "arbitrary (uninterpreted) function of (precision, mode), and each answer must be that function's value for its OWN request "
+    "(no state kept by the object may leak the earlier request's precision or mode into the later answer)."
 )
 TRUSTED = _c02.TRUSTED + ["idealised contract of the fixed-point constant routines: F(q) = floor(C * 2^q)"]
 ASSUMPTIONS = ["requested precisions <= 44 bits (prec + 20 guard bits <= 64) for the rounding wrapper, <= 51 for the cache wrapper", "constant positive with magnitude ~ 1 (documented assumption of def_mpf_constant)"]
 BUDGET = {'quick': dict(ob_deadline_s=60, total_s=120), 'thorough': dict(ob_deadline_s=300, total_s=900)}
-BOUNDS = {'quick': 'cache: prec in {1,2,5,10,20,33,50}, states empty/filled(any memo_prec 0..64), with and without a failing series routine, 4 constants; rounding: prec in {1,2,3,10,24,40,44}, five modes, 4 constants'}
+BOUNDS = {'quick': 'cache: prec in {1,2,5,10,20,33,50}, states empty/filled(any memo_prec 0..64), with and without a failing series routine, 4 constants; rounding: prec in {1,2,3,10,24,40,44}, five modes, 4 constants; context objects: pi (thorough: pi, e, ln2, euler, catalan), 4 request-kind sequences x 25 mode pairs, precisions symbolic 1..2^20'}
 
 CONSTS = [('pi_fixed', 'mpf_pi'), ('ln2_fixed', 'mpf_ln2'), ('e_fixed', 'mpf_e'), ('phi_fixed', 'mpf_phi'), ('ln10_fixed', 'mpf_ln10')]
 
@@ -39,4 +44,10 @@ def obligations(tier, seed=0):
             for prec in ((1, 2, 3, 10, 24, 40, 44) if tier != 'thorough' else (1, 2, 3, 4, 5, 8, 10, 16, 24, 32, 40, 41, 42, 43, 44)):
                 for rnd in RNDS:
                     obs.append((FC + 'const_round', dict(name=rounded, prec=prec, rnd=rnd)))
+    # the context-level constant objects: two requests in sequence, each must be served for its own precision and rounding mode
+    for name in (('pi',) if tier != 'thorough' else ('pi', 'e', 'ln2', 'euler', 'catalan')):
+        for via1, via2 in (('call', 'call'), ('call', 'use'), ('use', 'call'), ('use', 'use')):
+            for r1 in RNDS:
+                for r2 in RNDS:
+                    obs.append((FC + 'const_ctx', dict(name=name, via1=via1, via2=via2, r1=r1, r2=r2)))
     return obs
